@@ -4,3 +4,27 @@ check("C01", "exploration",
       "Trusted: Go's recover()/runtime, the driver's crash-slot replay. Says nothing about inputs not generated; termination is bounded-CPU on an isolated replay, not a proof.",
       "runtime monitoring: panic/error/fatal/CPU-limit oracle over exhaustive-short + randomized + pathological workloads across the 288-configuration lattice",
       "DESIGN.md section 4 / C01")
+check("C13", "exploration",
+      "Reference-model monitoring: every ast mutation call runs in lock-step with a list-of-children model and all accessors of all pool nodes are compared after each call; "
+      "all call sequences up to length 2 (quick) / 3 (thorough) over a 6-node pool are enumerated, plus long random sequences and Walk visitor scripts against a model walker.",
+      "Trusted: the 60-line list model and model walker (written from the interface documentation). Sequences longer than the exhaustive bound are sampled only.",
+      "runtime monitoring: lock-step reference model (list-of-children tree, model walker) over exhaustive short and random long call sequences",
+      "DESIGN.md section 4 / C13")
+check("C18", "exploration",
+      "Reference-model monitoring: text.Reader and text.BlockReader execute call sequences in lock-step with a concatenated-view cursor model; every return value and the final observable state are compared; "
+      "exhaustive over short sources x short call sequences, random beyond; Segment arithmetic compared with byte-level definitions.",
+      "Trusted: the reference cursor (about 100 lines) and the generator's encoding of the documented preconditions (listed in the evidence assumptions).",
+      "runtime monitoring: lock-step reference cursor over exhaustive short and random call sequences",
+      "DESIGN.md section 4 / C18")
+check("C19", "exploration",
+      "Law monitoring: each utility is executed on every short string over a law-relevant alphabet and on random longer strings, and its output is checked by an oracle for each stated law "
+      "(round trip through html.UnescapeString, relational unit alignment for URLEscape, reference decoders, fold-orbit equivalence over all code points, a map-based set model for BytesFilter trees with computed slot collisions).",
+      "Trusted: html.UnescapeString, unicode.SimpleFold tables, the small reference decoders. Strings longer than the exhaustive bound are sampled.",
+      "runtime monitoring: algebraic-law oracles over exhaustive short strings, all Unicode fold orbits and enumerated filter programs",
+      "DESIGN.md section 4 / C19")
+check("C20", "exploration",
+      "Trace monitoring: probe block/inline parsers, transformers and node renderers log their invocations; for every enumerated scenario (priorities x registration order x route x accept pattern) "
+      "the recorded invocation order and the chosen renderer are compared with a priority-sorted dispatch model; kinds without renderer function (incl. kinds created after initialisation) must be skipped with children rendered.",
+      "Trusted: the dispatch model (sorted-by-priority, first accept wins, trigger-less after triggered). Equal priorities are excluded because their order is undocumented.",
+      "runtime monitoring: invocation-log checker against a priority dispatch model over enumerated registration scenarios",
+      "DESIGN.md section 4 / C20")
